@@ -82,6 +82,8 @@ class Model:
         self.headers = {}     # name -> {'k': int, 'inc': [names], 'id': n}
         self.sources = {}     # rel path -> {'k': int, 'inc': [names], 'id'}
         self.next_id = 0
+        self.pch = None       # header name force-included into pch_users
+        self.pch_users = set()
 
     def new_id(self):
         self.next_id += 1
@@ -91,9 +93,15 @@ class Model:
         x = self.headers[h]
         return x['k'] + sum(self.hval(i) for i in x['inc'])
 
+    def incs_of(self, s):
+        x = self.sources[s]
+        extra = [self.pch] if (self.pch in self.headers and
+                               s in self.pch_users) else []
+        return list(x['inc']) + extra
+
     def sval(self, s):
         x = self.sources[s]
-        return x['k'] + sum(self.hval(i) for i in x['inc'])
+        return x['k'] + sum(self.hval(i) for i in self.incs_of(s))
 
     def expected(self):
         return sum(self.sval(s) for s in self.sources) % 1000003
@@ -110,7 +118,7 @@ class Model:
 
     def users_of_header(self, h):
         return {s for s, x in self.sources.items()
-                if h in self.closure(x['inc'])}
+                if h in self.closure(self.incs_of(s))}
 
     def header_text(self, h):
         x = self.headers[h]
@@ -126,9 +134,10 @@ class Model:
     def source_text(self, s):
         x = self.sources[s]
         lines = ['#include "{}"'.format(i) for i in x['inc']]
+        # the precompiled header is force-included by the compiler
         expr = ' + '.join([str(x['k'])] +
                           ['VAL_{}'.format(self.headers[i]['id'])
-                           for i in x['inc']])
+                           for i in self.incs_of(s)])
         lines += ['long val_{}(void) {{ return {}; }}'.format(x['id'], expr),
                   '']
         return '\n'.join(lines)
@@ -198,6 +207,10 @@ def setup(c, scn):
     for s, x in scn['sources'].items():
         m.sources[s] = {'k': x['k'], 'inc': list(x['inc']),
                         'id': m.new_id()}
+    if scn.get('pch'):
+        m.pch = scn['pch']
+        m.pch_users = {s_ for s_ in scn['sources']
+                       if s_ not in scn['lib_sources']}
     for h in m.headers:
         c.write_model_file(h)
     for s in m.sources:
@@ -220,9 +233,15 @@ def setup(c, scn):
             scn['lib_kind'], 'part', files=lib_srcs, includes=['include']),
             'part'))
         libs = ', libs=[part]'
+    pch = ''
+    if scn.get('pch'):
+        lines.append(G.Stmt('precompiled_header', G.call(
+            'precompiled_header', file='include/' + scn['pch'],
+            includes=['include']), 'pchobj'))
+        pch = ', pch=pchobj'
     lines.append(G.Stmt('executable', "executable('prog', files={}, "
-                        "includes=['include']{})".format(exe_files, libs),
-                        'prog'))
+                        "includes=['include']{}{})".format(exe_files, libs,
+                                                           pch), 'prog'))
     proj.scripts['build.bfg'] = lines
     c.w.write('build.bfg', proj.script_text('build.bfg'))
     c.proj = proj
@@ -345,7 +364,7 @@ def execute(root, cfg, scn, ops, chars):
                 do_build(c, users, 'add-header')
             elif k == 'drop-include-delete':
                 h = op[1]
-                if h not in m.headers:
+                if h not in m.headers or h == m.pch:
                     continue
                 users = m.users_of_header(h)
                 for x in list(m.headers.values()) + list(m.sources.values()):
@@ -366,7 +385,7 @@ def execute(root, cfg, scn, ops, chars):
                 do_build(c, users, 'drop-include-' + op[2])
             elif k == 'rename-header':
                 h, new = op[1], op[2]
-                if h not in m.headers or new in m.headers:
+                if h not in m.headers or new in m.headers or h == m.pch:
                     continue
                 users = m.users_of_header(h)
                 m.headers[new] = m.headers.pop(h)
@@ -385,6 +404,8 @@ def execute(root, cfg, scn, ops, chars):
                     continue
                 incs = [i for i in op[3] if i in m.headers]
                 m.sources[s] = {'k': op[2], 'inc': incs, 'id': m.new_id()}
+                if m.pch:
+                    m.pch_users.add(s)
                 c.write_model_file(s)
                 c.write_model_file('main.c')
                 c.trace.append(['add-source', s])
@@ -404,6 +425,8 @@ def execute(root, cfg, scn, ops, chars):
                 if c.violations:
                     break
                 want = set(m.sources) | {'main.c'}
+                if m.pch:
+                    want.add(os.path.join('include', m.pch))
                 links = len([s for s in r2.steps if '-c' not in s['argv']])
                 if comp != want or links < full_links:
                     c.vio('clean-recreates', 'after clean the build '
@@ -430,7 +453,10 @@ def gen_scenario(rng, chars):
         order.append(h)
     sources = {}
     for i in range(rng.randint(2, 5)):
-        s = 'src/{}{}.c'.format(rng.choice(G.NAMES), i)
+        stem = rng.choice(G.NAMES)
+        if ' ' in chars and rng.random() < 0.15:
+            stem = stem[:3] + ' ' + stem[3:]     # bfg9000 supports blanks
+        s = 'src/{}{}.c'.format(stem, i)
         sources[s] = {'k': rng.randrange(1, 1000),
                       'inc': rng.sample(order, rng.randint(0, min(3,
                                                                   len(order))))}
@@ -439,7 +465,16 @@ def gen_scenario(rng, chars):
     if not use_find and len(sources) > 1 and rng.random() < 0.6:
         lib_sources = rng.sample(sorted(sources), rng.randint(1,
                                                               len(sources) - 1))
+    pch = None
+    if rng.random() < 0.25:
+        # named in the build script, so a plain name (special characters in
+        # script-level file names are C01/C04, not this property)
+        plain = [h for h in order
+                 if all(ch.isalnum() or ch in '._-' for ch in h)]
+        if plain:
+            pch = rng.choice(plain)
     return {'headers': headers, 'sources': sources, 'use_find': use_find,
+            'pch': pch,
             'lib_sources': lib_sources,
             'lib_kind': rng.choice(['static_library', 'shared_library',
                                     'library']),
